@@ -53,6 +53,11 @@ def tasks(tier):
 def post(obs, tier, rep):
     from contracts import cpmc
     for o in obs:
+        if o["status"] == "refuted" and o["kind"] != "canary" and ".bond." in o["name"]:
+            try:
+                cpmc.replay_bond(o)
+            except Exception as e:   # noqa
+                o["witness"] = dict(native_error=repr(e)[:300])
         if o["status"] == "refuted" and o["kind"] != "canary" and ".site." in o["name"]:
             try:
                 cpmc.replay_site(o)
